@@ -193,7 +193,7 @@ PROP = dict(
          "part_count, max_iter, pool); non-trivial = positive weights, at least 4 points, at least 2 parts, max_iter >= 1",
     class_names=_class_names,
     trusted_base=[
-        "axioms: none (every theorem of Properties/C11.v is closed under the global context)",
+        "axioms: none for every theorem of Properties/C11.v except the five binary64 facts C11_f64_ulps_convex, C11_f64_mono_cuts_integer_weights, C11_f64_total, C11_f64_mono_cuts_scaled_weights and C11_f64_total_scaled, which go through Flocq and use the axioms of Coq's classical real numbers (ClassicalDedekindReals.sig_forall_dec, sig_not_dec, FunctionalExtensionality.functional_extensionality_dep, Classical_Prop.classic)",
         "oracles (universally quantified in the theorems, replayed in the runs): libm powf behind the scheme root (the run takes "
         "the roots revealed by the implementation's scheme and compares the whole scheme), rayon par_sort_unstable_by (any sorted "
         "permutation; the run replays rayon's answer after validating it), rayon's fold_with block decomposition, the order in "
